@@ -68,7 +68,7 @@ func TestLeakOnSparseParticipation(t *testing.T) {
 
 func TestGenesisInLaterForks(t *testing.T) {
 	for _, cfg := range []*Config{Fast(0, 1, 2, 3), Fast(0, 0, 1, 2), Fast(0, 0, 0, 1), Fast(0, 0, 0, 0), Fast(0, 0, 0, Never), Fast(0, 0, Never, Never), Fast(0, Never, Never, Never), MinimalAt(0, 0, 0, 0)} {
-		c := runChain(t, cfg, 64, "mixed", 5, 3*8, nil)
+		c := runChain(t, cfg, 48, "mixed", 5, 2*8+4, nil)
 		if c.GenesisFork != ForkAtEpoch(cfg.Spec, 0) {
 			t.Errorf("%s: genesis fork %s", cfg.ID, c.GenesisFork)
 		}
@@ -86,9 +86,9 @@ func TestEth1Genesis(t *testing.T) {
 }
 
 func TestRandomConfigsRun(t *testing.T) {
-	n := 12
+	n := 8
 	if testing.Short() {
-		n = 4
+		n = 3
 	}
 	tot := newCounters()
 	for seed := int64(0); seed < int64(n); seed++ {
@@ -171,12 +171,16 @@ func TestMutants(t *testing.T) {
 			t.Fatal(err)
 		}
 		c.Policy.ProposerSlashings, c.Policy.AttesterSlashings, c.Policy.Exits = 0.3, 0.3, 0.4
+		every := 7
+		if testing.Short() {
+			every = 19
+		}
 		for i := 0; i < 6*int(cfg.Spec.SLOTS_PER_EPOCH); i++ {
 			s, err := c.NextSlot(nil)
 			if err != nil {
 				t.Fatal(err)
 			}
-			if s.Block == nil || i%3 != 0 {
+			if s.Block == nil || i%every != 0 {
 				continue
 			}
 			for _, mu := range c.Mutations(s, 2) {
@@ -318,7 +322,7 @@ func TestByteMutationsNoPanic(t *testing.T) {
 		if err != nil {
 			t.Fatal(err)
 		}
-		for _, mu := range c.ByteMutations(s, 12, int64(i)) {
+		for _, mu := range c.ByteMutations(s, 5, int64(i)) {
 			mu := mu
 			o := c.ApplyMutant(s, &mu)
 			if o.Panic != nil {
